@@ -1057,6 +1057,124 @@ def run_shard(args):
     return res
 
 
+# ---------------------------------------------------------------------------------------
+# every operator: the substituter rebuilds each kind of node with a rule of its own (indexed bit-vector
+# operators, array literals, strings ...).  Over the standard profiles, every formula x every one-key map
+# (a symbol, or a constant sub-term incl. the index constants of array literals -> another leaf of the sort)
+# is compared with an independent top-down replacement done on the JSON form of the term (mc/core/termio.py)
+# and re-built through the public constructors.
+
+from ..core import profiles as SP  # noqa: E402
+
+
+def _jsub(j, key, val):
+    if j == key:
+        return val
+    if isinstance(j, list):
+        return [_jsub(x, key, val) for x in j]
+    return j
+
+
+def _allops_parts(quick):
+    out = [("bv12-d1", lambda e: SP.bv_profile(e, (1, 2)), 1, None),
+           ("bv3-d1", lambda e: SP.bv_profile(e, (3,), consts=(0, 5)), 1, None),
+           ("str-d1", lambda e: SP.str_profile(e, strs=("", "ab"), ints=(0, 1)), 1, None),
+           ("lira-d1", SP.lira_profile, 1, None),
+           ("arr-int-d2", lambda e: SP.arr_profile(e, INT, INT), 2, 1),
+           ("arr-bv-d1", lambda e: SP.arr_profile(e, BV2, BOOL), 1, None),
+           ("mixed-d2", lambda e: SP.mixed_profile(e), 2, 1)]
+    if not quick:
+        out += [("bv12-d2", lambda e: SP.bv_profile(e, (1, 2), nsyms=1, consts=(0, 1)), 2, 1),
+                ("str-d2", lambda e: SP.str_profile(e, strs=("", "ab"), ints=(0, 1)), 2, 1)]
+    return out
+
+
+def allops_case(env, f, key, val, routes):
+    """None or message: substitute {key: val} in f by every route and by the JSON reference"""
+    fj, kj, vj = termio.dump(f), termio.dump(key), termio.dump(val)
+    try:
+        want = termio.build(env, _jsub(fj, kj, vj), public=True)
+    except Exception as e:
+        want = ("raised", type(e).__name__)
+    for rn, route in routes:
+        try:
+            got = route(f, {key: val})
+        except Exception as e:
+            got = ("raised", type(e).__name__)
+        if isinstance(want, tuple) or isinstance(got, tuple):
+            if isinstance(want, tuple) != isinstance(got, tuple):
+                return "%s: substitute raised/returned %r, replacing in the term and re-building gives %r" % (
+                    rn, got if isinstance(got, tuple) else _sh(got), want if isinstance(want, tuple) else _sh(want))
+            continue
+        if got is not want:
+            return "%s: returned %s, replacing every occurrence top-down gives %s" % (rn, _sh(got), _sh(want))
+    return None
+
+
+def _allops_routes(env):
+    from pysmt.substituter import MGSubstituter, MSSubstituter
+    mgs, mss = MGSubstituter(env), MSSubstituter(env)
+    return [("FNode.substitute", lambda f, d: f.substitute(d)), ("MGSubstituter", lambda f, d: mgs.substitute(f, d)),
+            ("MSSubstituter", lambda f, d: mss.substitute(f, d))]
+
+
+def run_allops_shard(args):
+    pname, idx, nsh, quick = args
+    res = Result()
+    env = Environment()
+    push_env(env)
+    try:
+        spec = [x for x in _allops_parts(quick) if x[0] == pname][0]
+        profile = spec[1](env)
+        lv = termgen.levels(profile, spec[2])
+        terms = termgen.flatten(lv)
+        if spec[3] is not None and spec[2] >= 2:
+            # the deepest level only with one non-leaf argument
+            leaves = set(termgen.flatten(lv[:1]))
+            keep = termgen.flatten(lv[:spec[2]])
+            deep = [t for t in termgen.flatten(lv[spec[2]:]) if sum(1 for a in t.args() if a not in leaves) <= spec[3]]
+            terms = keep + deep
+        routes = _allops_routes(env)
+        by_sort = {}
+        for srt, ns in profile.leaves.items():
+            by_sort[srt] = list(ns)
+        for i, f in enumerate(terms):
+            if i % nsh != idx or not f.args():
+                continue
+            keys = []
+            seen = set()
+            stack = [f]
+            while stack:
+                n = stack.pop()
+                if n in seen:
+                    continue
+                seen.add(n)
+                if n.is_symbol() and not n.symbol_type().is_function_type():
+                    keys.append(n)
+                elif n.is_constant():
+                    keys.append(n)
+                stack.extend(n.args())
+            for key in keys:
+                srt = termio.sort_of(key.get_type() if key.is_constant() else key.symbol_type())
+                cands = [v for v in by_sort.get(srt, []) if v is not key][:2]
+                for val in cands:
+                    res.count("evaluations")
+                    res.count("allops_cases")
+                    bad = allops_case(env, f, key, val, routes)
+                    res.outcome("allops:%s:%s" % (op.op_to_str(f.node_type()), "ok" if bad is None else "differs"))
+                    if bad is None:
+                        res.count("nontrivial")
+                        continue
+                    res.violation("allops", "allops:%s(%s:=%s):order" % (op.op_to_str(f.node_type()),
+                                                                       "const" if key.is_constant() else "sym",
+                                                                       "const" if val.is_constant() else "term"),
+                                  "%s with {%s: %s}: %s" % (_sh(f), _sh(key), _sh(val), bad),
+                                  {"allops": True, "formula": termio.dump(f), "key": termio.dump(key), "val": termio.dump(val)})
+    finally:
+        pop_env()
+    return res
+
+
 def run(ctx):
     ctx.level = "exploration"
     ctx.rule = ("all formulas of each dedicated profile up to the part's depth (+ seeds with shared sub-DAGs "
@@ -1066,7 +1184,10 @@ def run(ctx):
                 "bodies to 1-2 function symbols (x all 1-key maps). Each case goes through both strategies "
                 "(6 routes for 1-key maps, a rotating pair of routes for larger maps). A case is non-trivial when some strategy returned a formula different from the "
                 "input; outcome labels show how many cases distinguish MGS from MSS, are symbol-keyed "
-                "(lemma evaluated under every interpretation) or capture cases (order oracle only)")
+                "(lemma evaluated under every interpretation) or capture cases (order oracle only). All-operators part: every term "
+                "of the standard profiles (all bit-vector operators at widths 1-3, strings, Int/Real, arrays incl. literals, "
+                "cross-theory) x every one-key map from a symbol or constant sub-term (incl. index constants of array "
+                "literals) to another leaf of its sort, three routes, compared with a top-down replacement on the JSON form")
     ctx.assumptions = ["reference semantics mc/core/refsem.py; Int pool {-1,0,2}; Int quantifiers over {0,1} and {-1,0,2}",
                        "the documented replacement orders are RefSub in mc/props/c05.py (keys mentioning a bound "
                        "variable are dropped under its binder; values are never inspected)",
@@ -1086,10 +1207,23 @@ def run(ctx):
         shards.extend((pi, i, n, ctx.seed) for i in range(n))
     ctx.rng.shuffle(shards)
     ctx.pmap(run_shard, shards)
+    if not getattr(ctx, "parts", None) or "allops" in ctx.parts:
+        ctx.pmap(run_allops_shard, [(pn, i, 8, ctx.quick) for pn, _, _, _ in _allops_parts(ctx.quick) for i in range(8)])
 
 
 def replay(rec):
     case = rec["case"]
+    if case.get("allops"):
+        env = Environment()
+        push_env(env)
+        try:
+            f, k, v = (termio.build(env, case[x]) for x in ("formula", "key", "val"))
+            bad = allops_case(env, f, k, v, _allops_routes(env))
+            if bad:
+                return False, "%s with {%s: %s}: %s" % (_sh(f), _sh(k), _sh(v), bad)
+            return True, "substituting %s by %s in %s replaces every occurrence" % (_sh(k), _sh(v), _sh(f))
+        finally:
+            pop_env()
     ms = bool(case.get("ms_env"))
     env = MSEnvironment() if ms else Environment()
     push_env(env)
